@@ -121,3 +121,18 @@ reg("C24", "exploration", "E1",
     "placements (positional, templated, list elements, file name, append_args): shlex.split(task.cmdline) must equal the argv "
     "recorded at the execute seam of the real run.",
     "POSIX splitting = shlex.split (no expansion).")
+
+reg("C13", "model_checking", "E2",
+    "explicit-state search over (failure mode, submission) histories to a fixed point, each transition a real submission",
+    "Per universe (python, shell, constant workflow, mixed; debug and cf workers) a search over histories of operations "
+    "(mode in {ok, raise, dict-missing-key, wrong-arity, None}, task, worker) runs to the fixed point of canonical states "
+    "(reference status x status read back with load_result per identity); every transition replays its history on a fresh cache "
+    "root. A submission expected to fail must raise with a retrievable recorded error and re-execute the failing body; no identity "
+    "whose last execution failed may have a non-errored cached result; expected successes must return the right outputs.",
+    "The failure mode is read from a control file that is not part of the hashed inputs. Serving a cached success without execution is don't-care.")
+reg("C19", "exploration", "E1",
+    "exhaustive cross product of input kinds x mutation x copy mode x worker, each a real execution",
+    "8 (thorough 12) value kinds {list, dict, set, attrs object, plain object, ndarray, File, Directory, nested} x mutates yes/no x "
+    "copy mode x worker {debug, cf}: with copy_mode=copy the originals are byte-identical afterwards; any other in-place mutation is "
+    "reported (raise or error-level log record); every result directory is named by the checksum computed beforehand from a pristine copy.",
+    "cf cases run in plain-fork helper processes (vt/ref/forkpool.py); reports when nothing was mutated are only counted (statement silent).")
